@@ -51,6 +51,7 @@ pub struct AStats {
     pub samples: u64,
     pub words: u64,
     pub extra_word_runs: u64,
+    pub adversarial: u64,
 }
 
 fn lits<W: Wt>(m: &[W]) -> Vec<Lit> {
@@ -128,6 +129,33 @@ where
                 "model-mismatch(weights)".into(),
                 format!("weights()[{i}] = {} but the input was {} (input {:?})", back[i].lit(), ws[i].lit(), lits(&ws)),
             ));
+        }
+    }
+    // ---- adversarial words: every column (up to 64) x extreme threshold words --------
+    {
+        let extremes: [u64; 8] = [!0, 0, !0 << 12, !0 << 40, 1 << 63, (1 << 63) - 1, !0 << 11, 1];
+        for c in 0..(n as u64).min(64) {
+            let w1 = lattice_word(c * (n as u64 / (n as u64).min(64)).max(1), n as u64);
+            for &w2 in &extremes {
+                let mut rng = SimRng::with_faults(seed, vec![Fault { pos: 0, inject: Inject::Word(w1) }, Fault { pos: 1, inject: Inject::Word(w2) }]);
+                rng.budget = 1000;
+                st.adversarial += 1;
+                match guarded(|| alias.sample(&mut rng)) {
+                    Caught::Ok(i) if i < n => {
+                        if !W::IS_FLOAT && ws[i] == W::zero_val() {
+                            return Err(("zero-weight-index".into(), format!("index {i} of weight 0 returned for column word {w1:#x} and threshold word {w2:#x}; weights {:?}", lits(&ws))));
+                        }
+                    }
+                    Caught::Ok(i) => {
+                        return Err(("out-of-support".into(), format!("sample() returned index {i} >= len {n} for column word {w1:#x} and threshold word {w2:#x}; weights {:?}", lits(&ws))))
+                    }
+                    Caught::Panic { msg, loc } => {
+                        return Err(("panic-sample".into(), format!("sample() of new({:?}) panicked for column word {w1:#x} and threshold word {w2:#x}: {msg} @ {loc}", lits(&ws))))
+                    }
+                    Caught::Budget(_) => return Err(("word-budget".into(), "sample() exceeded 1000 words".into())),
+                }
+                st.words += rng.pos;
+            }
         }
     }
     // ---- sampling law ----------------------------------------------------------------
@@ -319,6 +347,15 @@ fn random_vector<W: Wt>(r: &mut SimRng) -> Vec<Lit> {
         6..=8 => 30 + below(r, 300) as usize,
         _ => 1000 + below(r, 9001) as usize,
     };
+    // narrow integer types: lengths above MAX (MAX/len is then 0: any non-zero weight is
+    // invalid, all-zero is InsufficientNonZero)
+    let type_max = W::max_val().to_f64();
+    if !W::IS_FLOAT && type_max < 70_000.0 && below(r, 4) == 0 {
+        let len = type_max as usize + 1 + below(r, 300) as usize;
+        let all_zero = below(r, 5) == 0;
+        let hot = below(r, len as u64) as usize;
+        return (0..len).map(|i| if !all_zero && (i == hot || below(r, 50) == 0) { "1".to_string() } else { "0".to_string() }).collect();
+    }
     let mode = below(r, 6);
     let maxw = W::max_val().div_u32(len as u32);
     let maxf = maxw.to_f64();
@@ -559,7 +596,7 @@ impl Engine for AliasEngine {
                 res.violations.push(Violation { class, detail: format!("WeightedAliasIndex<{wty:?}>: {detail2}"), sig, case });
             }
         }
-        res.evaluations = st.vectors + st.exact_evals + st.samples;
+        res.evaluations = st.vectors + st.exact_evals + st.samples + st.adversarial;
         res.sim_words = st.words;
         res.stat_sum("vectors", st.vectors as f64);
         res.stat_sum("accepted_by_new", st.accepted as f64);
@@ -570,6 +607,9 @@ impl Engine for AliasEngine {
         res.stat_sum("exact_lattice_points", st.exact_evals as f64);
         res.stat_sum("statistical_law_vectors", st.stat_law as f64);
         res.stat_sum("runs_needing_a_third_word", st.extra_word_runs as f64);
+        res.stat_sum("adversarial_two_word_runs", st.adversarial as f64);
+        res.inj("F1-two-words", st.adversarial);
+        res.fired("F1-two-words", st.adversarial);
         res.inj("L-lattice(2 words)", st.exact_evals);
         res.fired("L-lattice(2 words)", st.exact_evals);
         if sub == p.small_chunks {
